@@ -29,8 +29,9 @@ TKc == <<"#", "t", "e", "x", "t">>
 MElem == VM(KA :> VS(s))
 MAttr == VM(KA :> VM(KX :> VS(s)))
 MMixed == VM(KA :> VM((TKc :> VS(s)) @@ (KB :> VS(<<>>))))
+MList == VM(KA :> VL(<<VS(s), VS(<<"x">>)>>))       \* single key, list with non-map members: the default root is used
 R(m) == Join(RenderCompact(EncodeRoot(m, <<>>, EO1), EO1))
-Emit == DoEmit => PrintT(ToJson([f |-> "esc", s |-> Join(s), e |-> Join(XmlEscape(s)), xe |-> R(MElem), xa |-> R(MAttr), xm |-> R(MMixed),
+Emit == DoEmit => PrintT(ToJson([f |-> "esc", s |-> Join(s), e |-> Join(XmlEscape(s)), xe |-> R(MElem), xa |-> R(MAttr), xm |-> R(MMixed), xl |-> R(MList),
                                  rawok |-> RawOK(s)]))
 C(x) == <<x>>
 cChunks == {C("&"), C("<"), C(">"), C("\""), C("'"), C("a"), C(";"), C("#"), C(" "),
